@@ -55,7 +55,7 @@ static void dump(std::ostream& o, InterpreterEnv* e) {
     if (e->execdata.m_validation_weight_left_init) o << ",\"w\":" << e->execdata.m_validation_weight_left;
     if (e->execdata.m_tapleaf_hash_init) o << ",\"leaf\":\"" << hx(std::vector<unsigned char>(e->execdata.m_tapleaf_hash.begin(), e->execdata.m_tapleaf_hash.end())) << "\"";
     o << ",\"slen\":" << e->script.size() << ",\"succ\":" << e->successor_script.size() << ",\"p2sh\":" << (e->is_p2sh ? 1 : 0)
-      << ",\"tce\":" << (e->tce ? 1 : 0) << ",\"done\":" << (e->done ? 1 : 0) << "}";
+      << ",\"tce\":" << (e->tce ? 1 : 0) << ",\"done\":" << (e->done ? 1 : 0) << ",\"sv\":" << (int)e->sigversion << "}";
 }
 // compact dump: only what the C01 oracle compares step by step
 static void dump_small(std::ostream& o, InterpreterEnv* e) {
